@@ -368,13 +368,22 @@ class MDCPDPEnv(RL4COEnvBase):
         # Append the last depot to the end of the actions
         actions = torch.cat([actions, td["current_depot"]], dim=-1)
 
+        # The episode ends on the last customer: in the closed problem the final return to its depot is charged too
+        current_length = td["current_length"]
+        if self.problem_mode == "close":
+            last_loc = gather_by_index(td["locs"], td["current_node"])
+            depot_loc = gather_by_index(td["locs"], td["current_depot"])
+            current_length = current_length.scatter_add(
+                -1, td["current_depot"], self.get_distance(last_loc, depot_loc)[..., None]
+            )
+
         # Calculate the reward
         if self.reward_mode == "minmax":
-            cost = torch.max(td["current_length"], dim=-1)[0]
+            cost = torch.max(current_length, dim=-1)[0]
         elif self.reward_mode == "minsum":
-            cost = torch.sum(td["current_length"], dim=-1)
+            cost = torch.sum(current_length, dim=-1)
         elif self.reward_mode == "lateness":
-            cost = torch.sum(td["current_length"], dim=(-1))
+            cost = torch.sum(current_length, dim=(-1))
             lateness = td["arrivetime_record"][..., num_depot + num_loc // 2 :]
             if self.reward_mode == "lateness_square":
                 lateness = lateness**2
